@@ -23,6 +23,7 @@ META = {
     "trusted_base": ["ciborium into_writer is deterministic and canonical for Text/Bytes/Array", "RFC 8152 section 6.3 as transcribed in spec/rfc8152.py",
                      "C02 (cbor_bstr yields the stored bytes) and C11 R-3"],
 }
+META["decides"] += ' (As built: see C03 - decided per public entry point on the all-inlined view.)'
 
 
 def check(ctx):
